@@ -7,20 +7,22 @@
 static uint8_t *RX;                 /* the receive buffer handed to parseFrame */
 static lltd_iface_state *ST;
 static int g_class;                 /* which oracle on_send applies */
-enum { CL_NONE = 0, CL_QUERY, CL_HELLO, CL_EMIT, CL_QLTLV, CL_ANY };
+enum { CL_NONE = 0, CL_QUERY, CL_HELLO, CL_EMIT, CL_QLTLV, CL_ANY, CL_PAIR };
 
 static uint8_t g_rec_desc[20]; static unsigned g_rec_cnt; static bool g_rec_valid;
 static size_t g_last_len;
+static void *g_expect_ctx;         /* 0 = interface A */
 
 static void oracle_query(const vcfg *c, const uint8_t *f, size_t n);
 static void oracle_hello(const vcfg *c, const uint8_t *f, size_t n);
 static void oracle_emit(const vcfg *c, const uint8_t *f, size_t n);
 static void oracle_qltlv(const vcfg *c, const uint8_t *f, size_t n);
 static void oracle_any(const vcfg *c, const uint8_t *f, size_t n);
+static void oracle_pair(const vcfg *c, const uint8_t *f, size_t n);
 
 static void on_send(void *ctx, const uint8_t *f, size_t n) {
     const vcfg *c = (const vcfg *)ctx;
-    V_ASSERT(ctx == (void *)&g_cfgA, "C02,C17: frames leave on the interface the request arrived on");
+    V_ASSERT(ctx == g_expect_ctx || (g_expect_ctx == 0 && ctx == (void *)&g_cfgA), "C02,C17: frames leave on the interface the request arrived on");
     g_last_len = n;
     if (n >= 32) {
         check_tx_common(c, f, n);
@@ -30,6 +32,7 @@ static void on_send(void *ctx, const uint8_t *f, size_t n) {
             case CL_EMIT: oracle_emit(c, f, n); break;
             case CL_QLTLV: oracle_qltlv(c, f, n); break;
             case CL_ANY: oracle_any(c, f, n); break;
+            case CL_PAIR: oracle_pair(c, f, n); break;
             default: V_ASSERT(0, "C02: no frame is sent in reaction to this class of frame");
         }
     } else {
@@ -285,8 +288,21 @@ static void oracle_any(const vcfg *c, const uint8_t *f, size_t n) { (void)c; (vo
 void h_safety(void) {
     common_setup(0);
     g_class = CL_ANY;
-#ifdef EXCLUDE_EMIT
-    V_ASSUME(!(in.frame[F_TOS] == 0 && in.frame[F_OP] == opcode_emit));
+#ifdef HOSTLEN
+    g_plat.hostname_len = HOSTLEN; g_cfgA.ssid_len = SSIDLEN;
+#endif
+#ifdef SAFETY_CLASS
+    /* class selector: 0 discover, 2 emit, 3 probe/train, 6 query, 8 reset, 11 qltlv, 255 everything else */
+    {
+        uint8_t t = in.frame[F_TOS], o = in.frame[F_OP];
+        if (SAFETY_CLASS == 0) V_ASSUME(is_disc_tos(t) && o == 0);
+        else if (SAFETY_CLASS == 2) V_ASSUME(t == 0 && o == 2);
+        else if (SAFETY_CLASS == 3) V_ASSUME(t == 0 && (o == 3 || o == 4));
+        else if (SAFETY_CLASS == 6) V_ASSUME(t == 0 && o == 6);
+        else if (SAFETY_CLASS == 8) V_ASSUME(is_disc_tos(t) && o == 8);
+        else if (SAFETY_CLASS == 11) V_ASSUME(is_disc_tos(t) && o == 0x0B);
+        else V_ASSUME(!handled_pair(t, o));
+    }
 #endif
     parseFrame(RX, &g_cfgA);
     struct snap sn; snapshot_list(ST, &sn);
@@ -297,5 +313,6 @@ void h_safety(void) {
 #include "blk_hello.h"
 #include "blk_emit.h"
 #include "blk_qltlv.h"
+#include "blk_pair.h"
 
 MAIN_NATIVE
